@@ -369,4 +369,66 @@ theorem apply_valid_or_rejected (S : Schema) (st : Step) (doc : Node)
     | valueError => exact .inr (.inl rfl)
     | internal => exact absurd h (apply_no_internal S st doc hdoc hwf)
 
+/-! ### The hypotheses are needed (and satisfiable)
+
+  Each hypothesis of `apply_no_internal`, dropped, admits an internal error — in the model (the
+  examples below) and in the code (`/repo`, checked by probe: every one of E1–E4 raises the class
+  noted).  Document: `doc(p("ab"), p("c"))` over `doc(para*), para(text*), text`. -/
+section Necessity
+/-- doc(para*), para(text*), text -/
+private def tinyS : Schema :=
+  { nodes := #[
+      { name := "doc", isText := false, isInline := false, isLeaf := false, isAtom := false,
+        inlineContent := false, isolating := false, defining := false, code := false,
+        dfa := #[⟨true, [(1, 0)]⟩], markSet := some [], attrs := [] },
+      { name := "para", isText := false, isInline := false, isLeaf := false, isAtom := false,
+        inlineContent := true, isolating := false, defining := false, code := false,
+        dfa := #[⟨true, [(2, 0)]⟩], markSet := none, attrs := [] },
+      { name := "text", isText := true, isInline := true, isLeaf := true, isAtom := true,
+        inlineContent := false, isolating := false, defining := false, code := false,
+        dfa := #[⟨true, []⟩], markSet := some [], attrs := [] }],
+    marks := #[], top := 0, textTy := 2 }
+
+private def tinyDoc : Node :=
+  .elem 0 [] [] [.elem 1 [] [] [.text [97, 98] []], .elem 1 [] [] [.text [99] []]]
+
+/-- E1 (`Slice.wf`, replace): an empty slice claiming one open level on the left.
+    Code: `ReplaceStep(1, 4, Slice(Fragment.empty, 1, 0))` → IndexError. -/
+example : StepWF (.replace 1 4 ⟨[], 1, 0⟩ false) = false ∧
+    tinyS.apply (.replace 1 4 ⟨[], 1, 0⟩ false) tinyDoc = .error .internal := by
+  simp [StepWF, Slice.wf, spineL, spineR, Schema.apply, Schema.fromReplace, Schema.replace, tinyDoc,
+    replaceKids, inRange, depthAt, Except.map]
+
+/-- E2 (`insert ≤ slice.size`, replace-around): the slice `<p()>` open 0/1 is well-formed and has
+    size 1; inserting the gap at 2 puts it after the paragraph, the result `<p(), "b">` open 0/1 is
+    not well-formed.  Code: `ReplaceAroundStep(0, 3, 2, 3, Slice(<p()>, 0, 1), 2)` → IndexError
+    (with `insert = 1` it returns `doc(p("b"), p("c"))`). -/
+example : (Slice.mk [.elem 1 [] [] []] 0 1).wf = true ∧
+    StepWF (.replaceAround 0 3 2 3 ⟨[.elem 1 [] [] []], 0, 1⟩ 2 false) = false ∧
+    tinyS.apply (.replaceAround 0 3 2 3 ⟨[.elem 1 [] [] []], 0, 1⟩ 2 false) tinyDoc = .error .internal := by
+  simp [StepWF, Slice.wf, Slice.size, spineL, spineR, Schema.apply, Schema.fromReplace, Schema.replace,
+    tinyDoc, Node.slice, Node.kids, sliceKids, sliceScan, sliceHere, Slice.insertAt, insertInto, flatInsert,
+    fcut, fcutLoop, cutText, splitOk, isHigh, isLow, fappend, addNode, replaceKids, inRange, depthAt,
+    Except.map]
+
+/-- E3 (`Slice.wf`, replace-around, with `insert ≤ size`): the slice `<"xy">` open 1/0.
+    Code: `ReplaceAroundStep(1, 4, 2, 3, Slice(<"xy">, 1, 0), 0)` → IndexError. -/
+example : StepWF (.replaceAround 1 4 2 3 ⟨[.text [120, 121] []], 1, 0⟩ 0 false) = false ∧
+    ((0 : Nat) : Int) ≤ (Slice.mk [.text [120, 121] []] 1 0).size ∧
+    tinyS.apply (.replaceAround 1 4 2 3 ⟨[.text [120, 121] []], 1, 0⟩ 0 false) tinyDoc = .error .internal := by
+  simp [StepWF, Slice.wf, Slice.size, spineL, spineR, Schema.apply, Schema.fromReplace, Schema.replace,
+    tinyDoc, Node.slice, Node.kids, sliceKids, sliceScan, sliceHere, Slice.insertAt, insertInto, flatInsert,
+    fcut, fcutLoop, cutText, splitOk, isHigh, isLow, fappend, addNode, replaceKids, inRange, depthAt,
+    Except.map]
+
+/-- E4 (`IsElem`): a text node as the document.
+    Code: `ReplaceStep(0, 0, Slice.empty).apply(schema.text("a"))` → TypeError. -/
+example : tinyS.apply (.replace 0 0 Slice.empty false) (.text [97] []) = .error .internal := by
+  simp [Schema.apply, Schema.fromReplace, Schema.replace]
+
+/-- the hypotheses are satisfiable non-trivially: a well-formed open slice around a gap, applied -/
+example : IsElem tinyDoc ∧ StepWF (.replaceAround 0 3 2 3 ⟨[.elem 1 [] [] []], 0, 1⟩ 1 false) = true := by
+  simp [IsElem, tinyDoc, Node.isLeaf, StepWF, Slice.wf, Slice.size, spineL, spineR]
+end Necessity
+
 end PM.C01
